@@ -1,5 +1,6 @@
 import Operon.Lemmas.Mito
 /-! C02 helper lemmas: the walker simulates Python's evaluation (same trace, same value) unless it fails. -/
+set_option linter.unusedSectionVars false
 namespace Operon.Mito
 open R
 
@@ -116,5 +117,15 @@ theorem walkBool_sim (k : BoolK) : ∀ es, Sim (walkBool T env k es) (pyBool T.n
     · refine Sim.bind (walk_sim e) fun v => Sim.bind (Sim.refl _) fun b => ?_
       cases k <;> cases b <;> simp <;> first | exact Sim.refl _ | exact walkBool_sim _ _
 end
+
+def tablesSoundB (T : Tables) : Bool :=
+  T.bin.all (fun kp => decide (kp.2 = specBin kp.1)) &&
+  T.un.all (fun kp => decide (specUn kp.1 = some kp.2)) &&
+  T.cmp.all (fun kp => decide (kp.2 = specCmp kp.1))
+
+theorem tablesSound_of_check (T : Tables) (h : tablesSoundB T = true) : TablesSound T := by
+  simp only [tablesSoundB, Bool.and_eq_true, List.all_eq_true, decide_eq_true_eq] at h
+  exact ⟨fun k p hl => h.1.1 (k, p) (lookup_mem _ _ _ hl), fun k p hl => h.1.2 (k, p) (lookup_mem _ _ _ hl),
+         fun k p hl => h.2 (k, p) (lookup_mem _ _ _ hl)⟩
 
 end Operon.Mito
